@@ -160,3 +160,13 @@ Fixpoint schedule_events (s : schedule) (spec : list (list delivery)) : list eve
        end) :: schedule_events r ds
   | _, _ => []
   end.
+
+(* the lines of a schedule as a reader's loop sees them: (outcome of parsing, outcome of the tag block queue) *)
+Definition item_line (i : item) : M sentence * option exn :=
+  match i with
+  | IFrag f => (Ok (SAis (sf_sent f)), None)
+  | IWrapper g => (Ok (SGatehouse g), None)
+  | ISkipped e => (Raise (Lib e), None)
+  end.
+
+Definition schedule_lines (s : schedule) : list (M sentence * option exn) := map item_line s.
